@@ -21,9 +21,9 @@ fn main() {
     let p = |id, rule| Property {
         id,
         level: Level::Exploration,
-        quick_runs: 120_000,
-        thorough_runs: 3_000_000,
-        quick_wall_s: 75.0,
+        quick_runs: 300_000,
+        thorough_runs: 6_000_000,
+        quick_wall_s: 60.0,
         thorough_wall_s: 900.0,
         event_cap: 12_000,
         enumerate: None,
